@@ -27,29 +27,6 @@ def charBefore : Node → Skip → Option Char
        | none => none)
     | _ => none
 
-mutual
-/-- no `trailing_collapsible_space` flag in the subtree (no inline box ends with a text box that
-white-space collapsing emptied) -/
-def unflagged : Node → Bool
-  | .text _ => true
-  | .box _ _ _ kids => unflaggedL kids
-  | .flagged _ => false
-def unflaggedL : List Node → Bool
-  | [] => true
-  | k :: ks => unflagged k && unflaggedL ks
-end
-
-theorem unflaggedL_mem : ∀ (ks : List Node), unflaggedL ks = true → ∀ c ∈ ks, unflagged c = true
-  | [], _, c, hc => by cases hc
-  | k :: ks, h, c, hc => by
-    simp only [unflaggedL, Bool.and_eq_true] at h
-    rcases List.mem_cons.mp hc with rfl | hm
-    · exact h.1
-    · exact unflaggedL_mem ks h.2 c hm
-
-theorem unflagged_tcs (c : Node) (h : unflagged c = true) : c.tcs = false := by
-  cases c <;> simp_all [unflagged, Node.tcs]
-
 theorem find_get {t : Text} {c : Char} {i : Nat} (h : find t c = some i) : t[i]? = some c := by
   unfold find at h
   have h1 := List.findIdx?_eq_some_iff_getElem.mp h
@@ -118,35 +95,22 @@ theorem textLevel_no_wrap (st : Style) (hw : st.ws.textWrap = false) (s : Text) 
         simp only [charBefore, unwrapN]
         exact splitTextBox_no_wrap st hw s _ _ _ ts hs q hres
 
-/-- the `resume_at` of the children loop under `pre` / `nowrap` is the `resume_at` of one child's own split,
-and `last_letter` is never `True`, as long as no child carries `trailing_collapsible_space` and no
-child's own split returns `True` -/
+/-- the `resume_at` of the children loop under `pre` / `nowrap` is the `resume_at` of one child's own split
+(whatever `last_letter` is, `True` included since fix fd6f32a: no break opportunity between two children) -/
 theorem boxLoop_no_wrap_child (ws : WS) (hnb : ws.noBreakBetween = true) (hbi : ws.breakInside = false)
     (split : Split) (rs maxX : Rat) (skip : Option Skip) :
     ∀ (kids : List Node) (index : Nat) (posX : Rat) (waiting : List Entry) (firstL : Option Char) (lastL : Last)
       (pres : Bool) (sub : Option Skip) (lo : LoopOut),
-      (∀ c ∈ kids, c.tcs = false) →
-      (∀ c ∈ kids, ∀ px mx sk out, split c px mx sk = .ok out → out.last ≠ .collapsed) →
-      lastL ≠ .collapsed →
       boxLoop ws split rs maxX skip kids index posX [] waiting firstL lastL pres sub = .ok lo →
-      lo.last ≠ .collapsed ∧
       ∀ s, lo.resume = some s → ∃ j child sub' px mx sk out, kids[j]? = some child ∧ s = .mk (index + j) (some sub') ∧
         split child px mx sk = .ok out ∧ out.resume = some sub'
-  | [], _, _, _, _, _, _, _, lo, _, _, hl, h => by
+  | [], _, _, _, _, _, _, _, lo, h => by
     unfold boxLoop at h
     cases h
-    exact ⟨hl, by intro s hs; cases hs⟩
-  | child :: rest, index, posX, waiting, firstL, lastL, pres, sub, lo, hk, hsp, hl, h => by
+    intro s hs; cases hs
+  | child :: rest, index, posX, waiting, firstL, lastL, pres, sub, lo, h => by
     unfold boxLoop at h
-    have htcs : child.tcs = false := hk child (List.mem_cons_self)
-    have hl' : lastL = .none ∨ ∃ a, lastL = .ch a := by
-      cases lastL with
-      | none => exact Or.inl rfl
-      | ch a => exact Or.inr ⟨a, rfl⟩
-      | collapsed => exact absurd rfl hl
-    rcases hl' with rfl | ⟨a, rfl⟩
-    all_goals (
-    simp only [hnb, if_true, Bool.false_eq_true, if_false, List.nil_append, htcs] at h
+    simp only [hnb, if_true, Bool.false_eq_true, if_false, List.nil_append] at h
     cases h0 : split child posX maxX sub with
     | error e => rw [h0] at h; cases h
     | ok out0 =>
@@ -165,27 +129,20 @@ theorem boxLoop_no_wrap_child (ws : WS) (hnb : ws.noBreakBetween = true) (hbi : 
       | error e => cases h
       | ok out =>
         obtain ⟨mx, hout⟩ := hsrc out rfl
-        have hlast : out.last ≠ .collapsed := hsp child (List.mem_cons_self) posX mx sub out hout
         simp only at h
-        have hk' : ∀ c ∈ rest, c.tcs = false := fun c hc => hk c (List.mem_cons_of_mem _ hc)
-        have hsp' : ∀ c ∈ rest, ∀ px mx sk out, split c px mx sk = .ok out → out.last ≠ .collapsed :=
-          fun c hc => hsp c (List.mem_cons_of_mem _ hc)
         have here : ∀ r, out.resume = some r → ∀ s, some (Skip.mk index (some r)) = some s →
             ∃ j child' sub' px mx sk out', (child :: rest)[j]? = some child' ∧ s = .mk (index + j) (some sub') ∧
               split child' px mx sk = .ok out' ∧ out'.resume = some sub' := by
           intro r hr s hs
           cases hs
           exact ⟨0, child, r, posX, mx, sub, out, rfl, rfl, hout, hr⟩
-        have later : ∀ (lo' : LoopOut), (lo'.last ≠ .collapsed ∧ ∀ s, lo'.resume = some s → ∃ j child' sub' px mx sk out',
-              rest[j]? = some child' ∧
+        have later : ∀ (lo' : LoopOut), (∀ s, lo'.resume = some s → ∃ j child' sub' px mx sk out', rest[j]? = some child' ∧
               s = .mk (index + 1 + j) (some sub') ∧ split child' px mx sk = .ok out' ∧ out'.resume = some sub') →
-            lo'.last ≠ .collapsed ∧ ∀ s, lo'.resume = some s → ∃ j child' sub' px mx sk out', (child :: rest)[j]? = some child' ∧
+            ∀ s, lo'.resume = some s → ∃ j child' sub' px mx sk out', (child :: rest)[j]? = some child' ∧
               s = .mk (index + j) (some sub') ∧ split child' px mx sk = .ok out' ∧ out'.resume = some sub' := by
-          intro lo' ih
-          refine ⟨ih.1, ?_⟩
-          intro s hs
-          obtain ⟨j, c', sub', px, mx', sk, out', hj, hs', hsp2, hre⟩ := ih.2 s hs
-          refine ⟨j + 1, c', sub', px, mx', sk, out', by simpa using hj, ?_, hsp2, hre⟩
+          intro lo' ih s hs
+          obtain ⟨j, c', sub', px, mx', sk, out', hj, hs', hsp, hre⟩ := ih s hs
+          refine ⟨j + 1, c', sub', px, mx', sk, out', by simpa using hj, ?_, hsp, hre⟩
           rw [hs']; congr 1; omega
         cases hf : out.frag with
         | none =>
@@ -196,11 +153,11 @@ theorem boxLoop_no_wrap_child (ws : WS) (hnb : ws.noBreakBetween = true) (hbi : 
             rw [hr] at h
             simp only at h
             cases h
-            exact ⟨hlast, here r hr⟩
+            exact here r hr
           | none =>
             rw [hr] at h
             simp only at h
-            exact later lo (boxLoop_no_wrap_child ws hnb hbi split rs maxX skip rest _ _ _ _ _ _ _ lo hk' hsp' hlast h)
+            exact later lo (boxLoop_no_wrap_child ws hnb hbi split rs maxX skip rest _ _ _ _ _ _ _ lo h)
         | some f =>
           rw [hf] at h
           simp only [tryWaiting_no_wrap ws hbi, List.getLast?_nil] at h
@@ -209,70 +166,52 @@ theorem boxLoop_no_wrap_child (ws : WS) (hnb : ws.noBreakBetween = true) (hbi : 
             rw [hr] at h
             simp only [ite_self] at h
             cases h
-            exact ⟨hlast, here r hr⟩
+            exact here r hr
           | none =>
             rw [hr] at h
             simp only [ite_self] at h
-            exact later lo (boxLoop_no_wrap_child ws hnb hbi split rs maxX skip rest _ _ _ _ _ _ _ lo hk' hsp' hlast h))
+            exact later lo (boxLoop_no_wrap_child ws hnb hbi split rs maxX skip rest _ _ _ _ _ _ _ lo h)
 
 theorem no_wrap_tables (ws : WS) (hw : ws.textWrap = false) : ws.noBreakBetween = true ∧ ws.breakInside = false := by
   cases ws <;> first | (exact absurd hw (by decide)) | decide
 
-theorem Last.ofOpt_ne (o : Option Char) : Last.ofOpt o ≠ .collapsed := by
-  cases o <;> simp [Last.ofOpt]
-
-theorem textLevel_last (st : Style) (s : Text) (posX maxX : Rat) (skip : Option Skip) (o : LevelOut)
-    (h : textLevel st s posX maxX skip = .ok o) : o.last ≠ .collapsed := by
-  unfold textLevel at h
-  split at h
-  · cases h
-  · simp only [Except.map] at h
-    split at h
-    · cases h
-    · cases h
-      simp only
-      exact Last.ofOpt_ne _
-
 /-- the children loop of an inline box whose children satisfy the statement (`ih`) satisfies it -/
 theorem boxLoop_no_wrap_core (ws : WS) (hnb : ws.noBreakBetween = true) (hbi : ws.breakInside = false)
-    (split : Split) (ls rs : Rat) (deco : Bool) (kids : List Node) (hu : unflaggedL kids = true)
-    (ih : ∀ c px mx sk out, unflagged c = true → split c px mx sk = .ok out →
-      out.last ≠ .collapsed ∧ ∀ r, out.resume = some r → charBefore c r = some '\n')
+    (split : Split) (ls rs : Rat) (deco : Bool) (kids : List Node)
+    (ih : ∀ c px mx sk out, split c px mx sk = .ok out → ∀ r, out.resume = some r → charBefore c r = some '\n')
     (mx : Rat) (skip sub : Option Skip) (n : Nat) (posX : Rat) (lo : LoopOut)
     (hl : boxLoop ws split rs mx skip (kids.drop n) n posX [] [] none .none false sub = .ok lo) :
-    lo.last ≠ .collapsed ∧ ∀ r, lo.resume = some r → charBefore (.box ls rs deco kids) r = some '\n' := by
-  have hmem : ∀ c ∈ kids.drop n, unflagged c = true :=
-    fun c hc => unflaggedL_mem kids hu c (List.mem_of_mem_drop hc)
-  obtain ⟨hlast, hres⟩ := boxLoop_no_wrap_child ws hnb hbi split rs mx skip _ _ _ _ _ _ _ _ lo
-    (fun c hc => unflagged_tcs c (hmem c hc))
-    (fun c hc px mx sk out hsp => (ih c px mx sk out (hmem c hc) hsp).1)
-    (by simp) hl
-  refine ⟨hlast, ?_⟩
+    ∀ r, lo.resume = some r → charBefore (.box ls rs deco kids) r = some '\n' := by
   intro r hr
-  obtain ⟨j, child, sub', px, mx', sk, out, hj, hs, hsp, hre⟩ := hres r hr
-  have hcu : unflagged child = true := hmem child (List.mem_of_getElem? hj)
-  have h2 := (ih child px mx' sk out hcu hsp).2 sub' hre
+  obtain ⟨j, child, sub', px, mx', sk, out, hj, hs, hsp, hre⟩ :=
+    boxLoop_no_wrap_child ws hnb hbi split rs mx skip _ _ _ _ _ _ _ _ lo hl r hr
+  have h2 := ih child px mx' sk out hsp sub' hre
   rw [hs]
   rw [List.getElem?_drop] at hj
   simp only [charBefore, unwrapN, hj]
   exact h2
 
-/-- **`nowrap` / `pre` inside nested inline boxes**: whatever the nesting, the spacing, the widths and the
-resume position, when `split_inline_level` says the content continues on a next line, the character just
-before the resume point is a preserved line break — lines never end at a space, between two boxes or
-inside a re-broken waiting child.  Hypothesis: no box of the tree carries `trailing_collapsible_space`
-(finding nowrap-breaks-after-collapsed-space: after such a box the `nowrap` test is skipped). -/
+theorem charBefore_flagged (n : Node) (r : Skip) : charBefore (.flagged n) r = charBefore n r := by
+  cases r with
+  | mk k sub => cases sub <;> simp [charBefore, unwrapN]
+
+/-- **`nowrap` / `pre` inside nested inline boxes**: whatever the nesting, the spacing, the widths, the
+resume position and the `trailing_collapsible_space` flags, when `split_inline_level` says the content
+continues on a next line, the character just before the resume point is a preserved line break — lines
+never end at a space (collapsed or not), between two boxes or inside a re-broken waiting child. -/
 theorem splitLevel_no_wrap (st : Style) (hw : st.ws.textWrap = false) : ∀ (fuel : Nat) (node : Node) (posX maxX : Rat)
-    (skip : Option Skip) (o : LevelOut), unflagged node = true → splitLevel st fuel node posX maxX skip = .ok o →
-    o.last ≠ .collapsed ∧ ∀ r, o.resume = some r → charBefore node r = some '\n'
-  | 0, _, _, _, _, _, _, h => by cases h
-  | _ + 1, .text s, posX, maxX, skip, o, _, h => by
-    refine ⟨textLevel_last st s posX maxX skip o h, ?_⟩
+    (skip : Option Skip) (o : LevelOut), splitLevel st fuel node posX maxX skip = .ok o →
+    ∀ r, o.resume = some r → charBefore node r = some '\n'
+  | 0, _, _, _, _, _, h => by cases h
+  | _ + 1, .text s, posX, maxX, skip, o, h => by
     intro r hr
     exact textLevel_no_wrap st hw s posX maxX skip o h r hr
-  | _ + 1, .flagged n, _, _, _, _, hu, _ => by simp [unflagged] at hu
-  | fuel + 1, .box ls rs deco kids, posX, maxX0, skip, o, hu, h => by
-    simp only [unflagged] at hu
+  | fuel + 1, .flagged n, posX, maxX, skip, o, h => by
+    intro r hr
+    simp only [splitLevel] at h
+    rw [charBefore_flagged]
+    exact splitLevel_no_wrap st hw fuel n posX maxX skip o h r hr
+  | fuel + 1, .box ls rs deco kids, posX, maxX0, skip, o, h => by
     simp only [splitLevel] at h
     unfold boxLevel at h
     simp only [Except.map] at h
@@ -281,8 +220,8 @@ theorem splitLevel_no_wrap (st : Style) (hw : st.ws.textWrap = false) : ∀ (fue
     · cases h
     · rename_i lo hl
       cases h
-      exact boxLoop_no_wrap_core st.ws hnb hbi (splitLevel st fuel) ls rs deco kids hu
-        (fun c px mx sk out hc hsp => splitLevel_no_wrap st hw fuel c px mx sk out hc hsp) _ skip _ _ posX lo hl
+      exact boxLoop_no_wrap_core st.ws hnb hbi (splitLevel st fuel) ls rs deco kids
+        (fun c px mx sk out hsp => splitLevel_no_wrap st hw fuel c px mx sk out hsp) _ skip _ _ posX lo hl
 
 theorem splitLine_resume (st : Style) (fuel : Nat) (kids : List Node) (posX lineX maxX : Rat) (skip : Option Skip)
     (lo : LineOut) (h : splitLine st fuel kids posX lineX maxX skip = .ok lo) :
@@ -298,7 +237,7 @@ theorem splitLine_resume (st : Style) (fuel : Nat) (kids : List Node) (posX line
 
 /-- **paragraph level**: under `nowrap` / `pre` every line box of a paragraph of nested inline boxes that
 is followed by another line ends at a preserved line break. -/
-theorem nextLine_no_wrap (p : IR.Para) (hw : p.st.ws.textWrap = false) (hu : unflaggedL p.kids = true)
+theorem nextLine_no_wrap (p : IR.Para) (hw : p.st.ws.textWrap = false)
     (skip : Option Skip) (y : Rat) (first : Bool)
     (l : IR.OutLine) (h : IR.nextLine p skip y first = .ok (some l)) (r : Skip) (hr : l.resume = some r) :
     charBefore (.box 0 0 false p.kids) r = some '\n' := by
@@ -317,7 +256,7 @@ theorem nextLine_no_wrap (p : IR.Para) (hw : p.st.ws.textWrap = false) (hu : unf
         have key : ∀ r, lo.resume = some r → charBefore (.box 0 0 false p.kids) r = some '\n' := by
           intro r hr
           rw [hres] at hr
-          exact (splitLevel_no_wrap p.st hw _ _ _ _ _ o (by simpa [unflagged] using hu) ho).2 r hr
+          exact splitLevel_no_wrap p.st hw _ _ _ _ _ o ho r hr
         split at h
         · cases h
           exact key r hr
